@@ -160,14 +160,21 @@ pub fn run_render(seed: u64, tier: &str, out: &mut Out) {
         let foo = if rng.chance(1, 4) { "F\tO".to_string() } else { "FOO".to_string() };
         let mut tpl = String::new();
         let mut has_bar = false;
+        // independent expectation, line by line: `Some(text)` for a template line made of literal text and plain placeholders of
+        // simple keys (no field attributes, no wide element), `None` for a line this oracle does not judge
+        let mut exp: Vec<Option<String>> = vec![Some(String::new())];
+        let mut last_group_start = 0usize;   // index in `exp` of the first line of the last group (a group = the text between two NewLine parts)
+        let simple_vals = msg.contains('\n') || prefix.contains('\n');   // a value with a line break moves the line numbering: judge nothing
+        let put = |exp: &mut Vec<Option<String>>, s: &str| { if let Some(Some(l)) = exp.last_mut() { l.push_str(s); } };
         for _ in 0..rng.range(1, 8) {
             match rng.below(12) {
-                0 | 1 | 2 => { let len = rng.range(1, 6); let s: String = (0..len).map(|_| *rng.pick(&lit_pool)).collect(); tpl.push_str(&s); }
-                3 => tpl.push_str("{{"),
-                4 => tpl.push_str("}}"),
-                5 => { tpl.push('{'); tpl.push_str(*rng.pick(&["", "", "ab"])); tpl.push(*rng.pick(&[' ', '\t', '\n'])); }
-                6 => tpl.push('\n'),
-                7 => tpl.push('\t'),
+                0 | 1 | 2 => { let len = rng.range(1, 6); let s: String = (0..len).map(|_| *rng.pick(&lit_pool)).collect(); tpl.push_str(&s); put(&mut exp, &s); }
+                3 => { tpl.push_str("{{"); put(&mut exp, "{"); }
+                4 => { tpl.push_str("}}"); put(&mut exp, "}"); }
+                5 => { let pre = *rng.pick(&["", "", "ab"]); let ws = *rng.pick(&[' ', '\t', '\n']); tpl.push('{'); tpl.push_str(pre); tpl.push(ws);
+                       put(&mut exp, "{"); put(&mut exp, pre); match ws { '\n' => exp.push(Some(String::new())), '\t' => put(&mut exp, "\t"), _ => put(&mut exp, " ") } }
+                6 => { tpl.push('\n'); exp.push(Some(String::new())); last_group_start = exp.len() - 1; }
+                7 => { tpl.push('\t'); put(&mut exp, "\t"); }
                 _ => {
                     let key = *rng.pick(&["msg", "prefix", "pos", "len", "foo", "nosuchkey", "wide_msg", "wide_msg", "wide_bar", "bar"]);
                     if key.ends_with("bar") { has_bar = true; }
@@ -181,6 +188,9 @@ pub fn run_render(seed: u64, tier: &str, out: &mut Out) {
                     }
                     ph.push('}');
                     tpl.push_str(&ph);
+                    let val: Option<&str> = if ph.contains(':') { None } else { match key { "msg" => Some(msg.as_str()), "prefix" => Some(prefix.as_str()), "foo" => Some(foo.as_str()), "nosuchkey" => Some(""), _ => None } };
+                    match val { Some(v) => put(&mut exp, v), None => { if key == "pos" { put(&mut exp, "\u{1}"); } else if key == "len" { put(&mut exp, "\u{2}"); } else { *exp.last_mut().unwrap() = None; } } }
+                    if ph.contains(':') { *exp.last_mut().unwrap() = None; }
                 }
             }
         }
@@ -215,7 +225,21 @@ pub fn run_render(seed: u64, tier: &str, out: &mut Out) {
                 // oracle (independent of the model): no TAB and no NUL marker reaches the target; a line holding a wide element
                 // alone with fixed text is never wider than the terminal unless the fixed text alone is
                 let bad = lines.iter().any(|l| l.contains('\t') || l.contains('\0') || l.contains('\n'));
-                let verdict = if bad { format!("FAIL a TAB, NUL or line break reached the draw target: tpl={tpl:?} msg={msg:?} lines={lines:?}") } else { "ok".into() };
+                let mut verdict = if bad { format!("FAIL a TAB, NUL or line break reached the draw target: tpl={tpl:?} msg={msg:?} lines={lines:?}") } else { "ok".to_string() };
+                // the lines this oracle knows: literal text and plain placeholders in order (`\u{1}` / `\u{2}` stand for `{pos}` / `{len}`)
+                if verdict == "ok" && !simple_vals {
+                    let tabw = tab.unwrap_or(8);
+                    let mut want: Vec<Option<String>> = exp.iter().map(|l| l.as_ref().map(|s| s.replace('\t', &" ".repeat(tabw)))).collect();
+                    // `format_state` drops the text after the last NewLine part only if it is empty as a whole
+                    if last_group_start + 1 == want.len() && want.last().map_or(false, |l| l.as_deref() == Some("")) { want.pop(); }
+                    if want.iter().all(|l| l.is_some()) || want.len() == lines.len() {
+                        if want.len() != lines.len() { verdict = format!("FAIL line-count the template {tpl:?} has {} lines, {} were rendered: {lines:?}", want.len(), lines.len()); }
+                        else { for (k, (w, g)) in want.iter().zip(lines.iter()).enumerate() { if let Some(w) = w {
+                            let w = w.replace('\u{1}', &pos.to_string()).replace('\u{2}', &len.to_string());
+                            if &w != g && verdict == "ok" { verdict = format!("FAIL line {k} of template {tpl:?} is {g:?}; its literal text and plain placeholders in order give {w:?}"); }
+                        } } }
+                    }
+                }
                 out.emit(&case, &format!("n={} {shown} ORACLE {}", lines.len(), verdict.replace('\n', "\\n")));
             }
         }
